@@ -55,6 +55,9 @@ Proof. vm_compute. eexists. eexists. repeat split. Qed.
 (* a reachable sketch with an empty base buffer and a gap in the levels: n = 8k, bit_pattern = 100b *)
 Definition W2 : prog := stream 2 (range 0 16).
 
+Lemma W2_wf : wf W2.
+Proof. repeat split. Qed.
+
 Lemma witness2_values :
   exists ar s, replay_ar (exec W2) (repeat 1 7) = Some (ar, s) /\ length ar = 7%nat /\
     cbb s = [] /\ cbp s = 4 /\ clv s = [[]; []; [7; 15]] /\ iterate s = [(7, 8); (15, 8)].
